@@ -47,12 +47,12 @@ def shards(tier, seed):
     return out
 
 
-def measure(x, fs, L, P, order, freq, backend="numba", second=None):
+def measure(x, fs, L, P, order, freq, backend="numba", second=None, olap=0.5):
     """Response of channel 1 at `freq`; with `second` the record is analysed as the first channel
     of a two-channel input (the side-lobe statement is about every analysis the sinusoid enters)."""
     from speckit.analysis import SpectrumAnalyzer
     data = x if second is None else second
-    an = SpectrumAnalyzer(data, fs, win="kaiser", psll=P, order=order, olap=0.5, backend=backend)
+    an = SpectrumAnalyzer(data, fs, win="kaiser", psll=P, order=order, olap=olap, backend=backend)
     r = an.compute_single_bin(freq, L=L)
     return float(r.XX[0]), r
 
@@ -114,11 +114,17 @@ def one_sinusoid(rec, seedt, tier, fixed=None):
             second = np.ascontiguousarray(np.vstack([x, rng.standard_normal(N)]))
     desc["backend"] = backend
     desc["two_channel"] = second is not None
+    # the overlap option must not matter for the window: with a one-segment record any value
+    # gives the same single segment
+    olap = 0.5
+    if fixed is None and K == 1 and rng.random() < 0.5:
+        olap = [0.0, 0.0, 0.3, "default"][int(rng.integers(0, 4))]
+    desc["olap"] = olap
     rec.case(desc, nontrivial=True)
     rec.count("sinusoids")
     rec.count(f"sinusoids[{backend}{'+2ch' if second is not None else ''}]")
     try:
-        p0, _ = measure(x, fs, L, P, order, b0 * fs / L, backend, second)
+        p0, _ = measure(x, fs, L, P, order, b0 * fs / L, backend, second, olap)
     except Exception as e:
         rec.violation("single-bin-raises", f"{type(e).__name__}: {e}")
         return
@@ -135,7 +141,7 @@ def one_sinusoid(rec, seedt, tier, fixed=None):
             rec.count("skipped_float64_floor")
             continue
         try:
-            pb, _ = measure(x, fs, L, P, order, b * fs / L, backend, second)
+            pb, _ = measure(x, fs, L, P, order, b * fs / L, backend, second, olap)
         except Exception as e:
             rec.violation("single-bin-raises", f"{type(e).__name__}: {e}")
             continue
@@ -193,7 +199,8 @@ def plan_route(rec, seedt, tier):
     ml = math.sqrt(1 + alpha * alpha)
     lo_f = 2 * ml if order >= 0 else ml
     try:
-        akw = dict(win="kaiser", psll=P, order=order, olap="default", scheduler=sched, Lmin=Lmin,
+        akw = dict(win="kaiser", psll=P, order=order,
+                   olap=["default", "default", 0.0, 0.5][int(rng.integers(0, 4))], scheduler=sched, Lmin=Lmin,
                    Jdes=int(rng.choice([60, 150])), Kdes=int(rng.choice([1, 3])), backend=backend)
         if rng.random() < 0.4:
             # the same analysis restricted to a band that cuts off the lowest plan bins
